@@ -389,15 +389,9 @@ protected:
 		if (!_conn || _p.pm != pm_thread)
 			return;
 		const int64_t t0(vclock_real_ns());
-		for (unsigned spins(0); reader_started() && !_impl->idle(); ++spins)
+		while (reader_started() && !_impl->wait_idle(200))
 		{
-			if (spins < 4000)
-				sched_yield();
-			else
-			{
-				vclock_real_sleep_us(20);
-				if (vclock_real_ns() - t0 > 15000000000LL) { _log.add("NOTQUIET"); break; }
-			}
+			if (vclock_real_ns() - t0 > 25000000000LL) { _log.add("NOTQUIET"); break; }
 		}
 	}
 
